@@ -16,7 +16,8 @@ from vlib.common import VERIF, Check, hexs, run_model
 import translate
 
 PID = "C20"
-LEMMAS = ["ScrapliProps/C20Lemmas.lean", "ScrapliProps/C20Repr.lean", "ScrapliModel/Log.lean", "ScrapliModel/LogTypes.lean"]
+LEMMAS = ["ScrapliProps/C20Lemmas.lean", "ScrapliProps/C20Repr.lean", "ScrapliProps/C20ApiLemmas.lean", "ScrapliModel/Log.lean",
+          "ScrapliModel/LogApi.lean", "ScrapliModel/LogTypes.lean"]
 
 # ---------------------------------------------------------------- the property, stated independently (oracle)
 READ = "read: "            # a "read message" is one whose text starts like this
@@ -773,7 +774,10 @@ class _Witness(logging.Handler):
         self.seen = []
 
     def emit(self, record):
-        self.seen.append(record.getMessage())
+        try:
+            self.seen.append(record.getMessage())
+        except Exception:       # an ill-formed record (histories outside the oracle's domain): the foreign handler must not disturb the run
+            self.seen.append(None)
 
 
 def _hist_rec(kind, n, ex):
@@ -784,43 +788,68 @@ def _hist_rec(kind, n, ex):
         return rec(f"read: {f'<e{n}>'.encode()!r}", (), **ex)
     if kind == "W":
         return rec("write: %r", (f"cmd{n}\n",), **ex)
+    if kind == "Wn":
+        return rec("warn %s", (f"<w{n}>",), level="WARNING", **ex)
+    if kind == "Br":      # ill-formed read record (two directives, one argument)
+        return rec("read: %r %r", (f"<b{n}>".encode(),), **ex)
+    if kind == "Bx":      # ill-formed non-read record (argument without directive)
+        return rec(f"plain {n}", (f"<x{n}>",), level="INFO", **ex)
     return rec(f"info {n} 100%", (), level="INFO", **ex)
 
 
+def _lvl(st):
+    return LEVELS[st.get("level", "debug").upper()]
+
+
 def run_history(case, work):
-    """enable_basic_logging called 1..3 times, records emitted through the real scrapli loggers in between, then
+    """enable_basic_logging called any number of times (any level / file / mode, also file=False and an invalid mode), records
+    logged through the real scrapli loggers in between (Logger.log's own `isEnabledFor` gate, then `handle`), then
     logging.shutdown() or close() of the attached handlers.  The harness keeps NO reference to the handlers:
     whatever the library drops is really gone, as in a program."""
     import gc
+    from scrapli.exceptions import ScrapliException
     from scrapli.logging import enable_basic_logging
     d = Path(tempfile.mkdtemp(dir=work.dir))
     lg = logging.getLogger("scrapli")
     src = logging.getLogger("scrapli.channel")
     saved = (lg.level, lg.propagate, list(lg.handlers))
-    files = {k: str(d / f"{k}.log") for k in {st["file"] for st in case["steps"] if st["op"] == "enable"}}
+    saved_src = list(src.handlers)
+    level0 = lg.getEffectiveLevel()
+    for st in case["steps"]:
+        if st["op"] == "emit":
+            st["rec"]["asctime"] = _STD.formatTime(mk_record(st["rec"]))
+    files = {k: str(d / f"{k}.log") for k in {st["file"] for st in case["steps"] if st["op"] == "enable" and st.get("file")}}
     for k, pth in files.items():
         if case.get("old", {}).get(k):
             Path(pth).write_text(case["old"][k], encoding="utf-8")
     wit = None
     err = io.StringIO()
     raised = None
+    refused = 0
+    nhandlers = None
     try:
         with contextlib.redirect_stderr(err):
             try:
                 for st in case["steps"]:
                     if st["op"] == "enable":
-                        enable_basic_logging(file=files[st["file"]], level="debug", caller_info=st["caller"], buffer_log=st["buffered"], mode=st["mode"])
+                        try:
+                            enable_basic_logging(file=files[st["file"]] if st.get("file") else False, level=st.get("level", "debug"),
+                                                 caller_info=st["caller"], buffer_log=st["buffered"], mode=st["mode"])
+                        except ScrapliException:
+                            refused += 1
                     elif st["op"] == "witness":
                         wit = _Witness()
                         lg.addHandler(wit)
                     else:
                         r = st["rec"]
                         record = mk_record(r)
-                        r["asctime"] = _STD.formatTime(record)
-                        src.handle(record)
+                        r["asctime"] = _STD.formatTime(record)      # (created now: the same rendering as above unless the second ticked)
+                        if src.isEnabledFor(record.levelno):      # Logger.log: `if self.isEnabledFor(level): self._log(...)` -> handle
+                            src.handle(record)
                         del record
                 if case.get("gc"):          # (costly on a big heap: a share of the cases; refcounting frees dropped handlers anyway)
                     gc.collect()
+                nhandlers = sum(1 for h in lg.handlers if isinstance(h, logging.FileHandler) and h not in saved[2])
                 if case["end"] == "shutdown":
                     logging.shutdown()
                 else:
@@ -835,12 +864,17 @@ def run_history(case, work):
                 lg.removeHandler(h)
                 with contextlib.suppress(Exception):
                     h.close()
+        for h in list(src.handlers):       # (a library that attaches its handlers somewhere else must not leak into the next case)
+            if h not in saved_src:
+                src.removeHandler(h)
+                with contextlib.suppress(Exception):
+                    h.close()
         h = None
         lg.setLevel(saved[0]); lg.propagate = saved[1]
     content = {k: (Path(pth).read_bytes() if Path(pth).exists() else None) for k, pth in files.items()}
     shutil.rmtree(d, ignore_errors=True)
-    return {"files": content, "nerr": err.getvalue().count("--- Logging error ---"), "raised": raised,
-            "witness_seen": None if wit is None else list(wit.seen)}
+    return {"files": content, "nerr": err.getvalue().count("--- Logging error ---"), "raised": raised, "level0": level0,
+            "refused": refused, "nhandlers": nhandlers, "witness_seen": None if wit is None else list(wit.seen)}
 
 
 def _file_atoms(data, caller):
@@ -872,20 +906,40 @@ def _is_subsequence(want, got):
     return all(any(a == b for b in it) for a in want)
 
 
+def _valid_mode(m):
+    return m.lower() in ("write", "append")
+
+
+def _logged(case, res):
+    """per step index: was the record handed to the handlers (the level in force = that of the latest call)"""
+    lvl, out = res["level0"], {}
+    for i, st in enumerate(case["steps"]):
+        if st["op"] == "enable":
+            lvl = _lvl(st)
+        elif st["op"] == "emit":
+            out[i] = LEVELS[st["rec"]["level"]] >= lvl
+    return out
+
+
 def judge_history(case, res):
-    """every record emitted while a file was configured (from the call that configured it to the next call) is in that
-    file, complete and in order — whatever was called afterwards; no logging error; a foreign handler keeps receiving"""
-    probs = []
+    """every record logged while a file was configured (from the call that configured it to the next call) is in that
+    file, complete and in order — whatever was called afterwards; nothing is in a file twice; no logging error; a foreign
+    handler keeps receiving.  Returns (problems, duplication problems on paths configured by several calls)"""
+    probs, dups = [], []
     if res["raised"]:
         probs.append(f"exception: {res['raised']}")
     if res["nerr"]:
         probs.append(f"logging reported {res['nerr']} error(s)")
     steps = case["steps"]
-    calls = [i for i, st in enumerate(steps) if st["op"] == "enable"]
+    logged = _logged(case, res)
+    anycall = [i for i, st in enumerate(steps) if st["op"] == "enable"]
+    calls = [i for i in anycall if steps[i].get("file") and _valid_mode(steps[i]["mode"])]
+    if res["refused"] != sum(1 for i in anycall if not _valid_mode(steps[i]["mode"])):
+        probs.append("enable_basic_logging accepted an invalid mode / refused a valid one")
     for n, i in enumerate(calls):
         st = steps[i]
-        end = calls[n + 1] if n + 1 < len(calls) else len(steps)
-        window = [x["rec"] for x in steps[i + 1:end] if x["op"] == "emit"]
+        end = min([j for j in anycall if j > i], default=len(steps))
+        window = [x["rec"] for k, x in enumerate(steps[i + 1:end], i + 1) if x["op"] == "emit" and logged[k]]
         want = []
         for r in window:
             m = o_message(r)
@@ -897,26 +951,60 @@ def judge_history(case, res):
         got = _file_atoms(data, st["caller"])
         if not _is_subsequence(want, got):
             probs.append(f"records emitted after enable_basic_logging call {n + 1} (file {st['file']}) are missing from / out of order in that file")
+    # exactly once: every record carries a token that occurs nowhere else in the history
+    tok = r"<[a-z]\d+>|cmd\d+|info \d+ "
+    toks = {t for st in steps if st["op"] == "emit" for t in re.findall(tok, o_message(st["rec"]))}
+    for f in sorted({steps[i]["file"] for i in calls}):
+        data = res["files"].get(f)
+        if data is None:
+            continue
+        ncalls = sum(1 for i in calls if steps[i]["file"] == f)
+        atoms = _file_atoms(data, steps[[i for i in calls if steps[i]["file"] == f][0]]["caller"])
+        text = "".join(a[1] for a in atoms if a[0] == "c") + "\n" + "\n".join(a[1] for a in atoms if a[0] == "m")
+        found = re.findall(tok, text)
+        twice = sorted(t for t in set(found) if t in toks and found.count(t) > 1)
+        if twice:
+            (dups if ncalls > 1 else probs).append(f"file {f} (configured by {ncalls} call(s)) shows a record more than once: {twice[:3]}")
     if res["witness_seen"] is not None:
         w = [i for i, st in enumerate(steps) if st["op"] == "witness"][0]
-        exp = [o_message(x["rec"]) for x in steps[w + 1:] if x["op"] == "emit"]
+        exp = [o_message(x["rec"]) for k, x in enumerate(steps[w + 1:], w + 1) if x["op"] == "emit" and logged[k]]
         if res["witness_seen"] != exp:
             probs.append("a foreign handler on the scrapli logger stopped receiving records")
-    return probs
+    return probs, dups
 
 
-def history_model_lines(case, vb):
-    """files configured by exactly one call: under the library's policy (handlers stack) the file is that handler's life
-    over every record emitted after the call"""
-    steps = case["steps"]
-    out = []
-    for i, st in enumerate(steps):
-        if st["op"] != "enable" or sum(1 for x in steps if x["op"] == "enable" and x["file"] == st["file"]) != 1:
-            continue
-        recs = [x["rec"] for x in steps[i + 1:] if x["op"] == "emit"]
-        out.append((st["file"], f"handler {vb} {int(st['buffered'])} {int(st['caller'])} 1 {int(st['mode'].lower() == 'append')} "
-                                 f"{es(case.get('old', {}).get(st['file'], ''))} {m_recs(recs)}"))
-    return out
+HFILES = "ABCDEFGH"
+
+
+def history_api_line(case, vb, level0):
+    """the whole history as ONE request to the Lean state machine of the logging API (ScrapliModel/LogApi.lean runApi)"""
+    ops = []
+    for st in case["steps"]:
+        if st["op"] == "enable":
+            ops.append(f"E{HFILES.index(st['file']) if st.get('file') else '~'},{_lvl(st)},{int(st['caller'])},{int(st['buffered'])},{es(st['mode'])}")
+        elif st["op"] == "emit":
+            ops.append(f"R{LEVELS[st['rec']['level']]}:{m_rec(st['rec'])}")
+    old = ",".join(f"{HFILES.index(k)}:{es(v)}" for k, v in sorted(case.get("old", {}).items()) if v)
+    return f"api {vb} {level0} {'s' if case['end'] == 'shutdown' else 'c'} {old or '.'} {'|'.join(ops) or '.'}"
+
+
+def history_impl_reply(case, res):
+    """the real run in the reply format of the `api` request"""
+    ids = sorted({HFILES.index(k) for k, v in case.get("old", {}).items() if v} |
+                 {HFILES.index(st["file"]) for st in case["steps"] if st["op"] == "enable" and st.get("file")})
+    fs = []
+    for i in ids:
+        data = res["files"].get(HFILES[i])
+        if data is None:      # never opened by the library: what the harness put there
+            data = (case.get("old", {}).get(HFILES[i]) or "").encode()
+        fs.append(f"{i}:{hexs(data)}")
+    return f"{','.join(fs) or '.'} {res['refused']} {res['nhandlers']} {res['nerr']}"
+
+
+def dup_predicate(case):
+    """predicate of C20-DUP: some path is configured by more than one valid enable_basic_logging call"""
+    fs = [st["file"] for st in case.get("steps", []) if st["op"] == "enable" and st.get("file") and _valid_mode(st["mode"])]
+    return len(fs) != len(set(fs))
 
 
 def _history(windows, calls, end, witness_at=None, old=None):
@@ -932,12 +1020,13 @@ def _history(windows, calls, end, witness_at=None, old=None):
             n += 1
             steps.append({"op": "emit", "rec": _hist_rec(k, n, ex)})
     # one path, several calls: only sane when every call appends (O_APPEND) and the layout is the same
-    for f in {c["file"] for c in calls}:
-        same = [st for st in steps if st["op"] == "enable" and st["file"] == f]
+    for f in {c["file"] for c in calls if c.get("file")}:
+        same = [st for st in steps if st["op"] == "enable" and st.get("file") == f]
         if len(same) > 1:
             for st in same:
                 st["mode"], st["caller"] = "append", same[0]["caller"]
-    return {"kind": "history", "steps": steps, "end": end, "old": old or {}, "gc": n % 7 == 0}
+    return {"kind": "history", "steps": steps, "end": end, "old": old or {}, "gc": n % 7 == 0,
+            "illformed": any(st["op"] == "emit" and not o_wf(st["rec"]) for st in steps)}
 
 
 def gen_histories(rng, tier):
@@ -951,14 +1040,39 @@ def gen_histories(rng, tier):
                     for end in ("shutdown", "close"):
                         calls = [{"file": "A", "buffered": b1, "caller": False, "mode": "write"}, {"file": "B", "buffered": b2, "caller": False, "mode": "write"}]
                         out.append(_history([["I"], w1, w2], calls, end))
+    # exhaustive: the SAME path configured twice (append) x shape of the two windows x buffering x ending
+    for w1 in lasts[:4]:
+        for w2 in (["I"], ["R"], ["W", "R"]):
+            for b1 in (True, False):
+                for b2 in (True, False):
+                    for end in ("shutdown", "close"):
+                        calls = [{"file": "A", "buffered": b1, "caller": False, "mode": "append"}, {"file": "A", "buffered": b2, "caller": False, "mode": "append"}]
+                        out.append(_history([[], w1, w2], calls, end))
+    # exhaustive: level of the second call x level of the records x buffering of the first handler
+    for l2 in ("debug", "info", "WARNING"):
+        for w2 in (["R", "I", "R"], ["W", "Wn"], ["R", "Wn", "R", "R"]):
+            for b1 in (True, False):
+                calls = [{"file": "A", "buffered": b1, "caller": False, "mode": "write", "level": "debug"},
+                         {"file": "B", "buffered": True, "caller": False, "mode": "write", "level": l2}]
+                out.append(_history([["Wn"], ["R", "R"], w2], calls, "shutdown"))
     nex = len(out)
     for _ in range(150 if tier == "quick" else 2500):
-        nc = rng.choice([1, 2, 2, 3, 3])
+        nc = rng.choice([1, 2, 2, 3, 3, 4])
+        rich = rng.random() < 0.6        # levels, file=False, invalid modes, ill-formed records
         calls = [{"file": rng.choice("ABC"[:rng.choice([1, 2, 3])]), "buffered": rng.random() < 0.75, "caller": rng.random() < 0.25,
                   "mode": rng.choice(["write", "append", "Append"])} for _ in range(nc)]
+        if rich:
+            for c in calls:
+                c["level"] = rng.choice(["debug", "debug", "DEBUG", "info", "Info", "warning"])
+                x = rng.random()
+                if x < 0.12:
+                    c["file"] = None
+                elif x < 0.22:
+                    c["mode"] = rng.choice(["tacocat", "", "w", "writeappend"])
+        kinds = ["R", "R", "Re", "W", "I"] + (["Wn", "Wn"] if rich else []) + (["Br", "Bx"] if rich and rng.random() < 0.3 else [])
         windows = []
         for _w in range(nc + 1):
-            k = [rng.choice(["R", "R", "Re", "W", "I"]) for _ in range(rng.randint(0, 5))]
+            k = [rng.choice(kinds) for _ in range(rng.randint(0, 5))]
             if k and rng.random() < 0.6:
                 k[-1] = rng.choice(["R", "R", "W", "I"])
             windows.append(k)
@@ -1042,7 +1156,11 @@ def run(tier, seed):
                       "reads happen only between open() and close() of the channel (a read after close() on a path sink raises ValueError)",
                       "ill-formed records (msg % args raises): inside the model's %-fragment the model/code agreement is checked strictly, "
                       "directives CPython knows and the model does not (%d, %5r, %(a)s) are advisory",
-                      "asctime is whatever logging.Formatter.formatTime returns for the record (taken from the stdlib, not modelled)"]
+                      "asctime is whatever logging.Formatter.formatTime returns for the record (taken from the stdlib, not modelled)",
+                      "logging API histories (ScrapliModel/LogApi.lean): files are append-at-end (a path configured twice with a write-mode call among "
+                      "them is outside the model), the history ends with logging.shutdown() / close() (nothing is logged afterwards), level names are "
+                      "numbers from logging's own table (NOTSET excluded); exactly-once per file is proved for paths configured by ONE call "
+                      "(api_file_exact) and refuted otherwise (api_exactly_once_full_refuted, open finding C20-DUP)"]
     try:
         translate.translate(PID)
     except Exception as e:
@@ -1083,6 +1201,12 @@ def _run(ck, tier, work):
         variant["utf8_log_file"] = not ascii_stream
         if ascii_stream:
             live.add("C20-ENC")
+    if "C20-DUP" in witnesses:          # stacked handlers on one path: every record twice (api_exactly_once_full_refuted)
+        wd = json.loads(json.dumps(witnesses["C20-DUP"]))
+        _p, _d = judge_history(wd, run_history(wd, work))
+        if _d:
+            live.add("C20-DUP")
+        ck.extra["variant_measured"]["stacks_handlers_on_one_path"] = bool(_d)
     for f in ck.findings:
         if f.get("status") == "open" and f["id"] in live:
             ck.known_finding(f["id"], f["what"])
@@ -1172,9 +1296,8 @@ def _run(ck, tier, work):
     hists = [json.loads(json.dumps(c)) for c in corpus if c.get("kind") == "history"] + hists
     for c in hists:
         res = run_history(c, work)
-        ml = history_model_lines(c, vb)
-        plan.append(("history", c, (res, [f for f, _ in ml]), len(lines)))
-        lines += [l for _, l in ml]
+        plan.append(("history", c, res, len(lines)))
+        lines.append(history_api_line(c, vb, res["level0"]))
     for c in e2e:
         res = run_e2e(c, work)
         plan.append(("e2e", c, res, len(lines)))
@@ -1223,7 +1346,8 @@ def _run(ck, tier, work):
         mout = None
 
     # ---------------- judge
-    adv_foreign = legacy_dis = 0
+    adv_foreign = legacy_dis = ill_hist = hist_files = 0
+    hist_dis = []
     for kind, c, res, li in plan:
         if kind in ("handler", "malformed", "malformed-foreign"):
             indom = kind == "handler" and all(o_wf(r) for r in c["recs"])
@@ -1282,28 +1406,42 @@ def _run(ck, tier, work):
                 else:
                     ck.traces_validated += 1
         elif kind == "history":
-            res, mfiles = res
-            probs = judge_history(c, res)
+            probs, dups = ([], []) if c.get("illformed") else judge_history(c, res)
             ncalls = sum(1 for st in c["steps"] if st["op"] == "enable")
             lastk = []
             for i, st in enumerate(c["steps"]):
                 if st["op"] == "enable" and i and c["steps"][i - 1]["op"] == "emit":
                     lastk.append("read" if is_read(c["steps"][i - 1]["rec"]) else "other")
+            nfiles = len({st["file"] for st in c["steps"] if st["op"] == "enable" and st.get("file")})
+            nconf = sum(1 for st in c["steps"] if st["op"] == "enable" and st.get("file") and _valid_mode(st["mode"]))
+            lv = {st.get("level", "debug").lower() for st in c["steps"] if st["op"] == "enable"}
             ck.case(json.dumps(c, sort_keys=True), nontrivial=ncalls >= 2,
                     sample={"history": [st["op"] + ":" + (st.get("file") or st.get("rec", {}).get("msg", ""))[:12] for st in c["steps"]][:8], "end": c["end"]},
                     tags=("history", f"hist-calls={ncalls}", "hist-end=" + c["end"], *("hist-last-before-call=" + k for k in set(lastk)),
-                          *(["hist-same-file"] if len({st["file"] for st in c["steps"] if st["op"] == "enable"}) < ncalls else [])))
-            if probs:
-                ck.violation({**c, "got_files": {k: (v.decode("utf-8", "replace") if v is not None else None) for k, v in res["files"].items()}},
-                             "; ".join(probs), None)
+                          *(["hist-same-file"] if nfiles < nconf else []), *(["hist-levels-differ"] if len(lv) > 1 else []),
+                          *(["hist-file-false"] if any(st["op"] == "enable" and not st.get("file") for st in c["steps"]) else []),
+                          *(["hist-invalid-mode"] if any(st["op"] == "enable" and not _valid_mode(st["mode"]) for st in c["steps"]) else []),
+                          *(["hist-ill-formed-records"] if c.get("illformed") else [])))
+            got_files = {k: (v.decode("utf-8", "replace") if v is not None else None) for k, v in res["files"].items()}
+            if c.get("illformed"):
+                ill_hist += 1       # records whose own formatting raises: outside the oracle's domain, strict for the correspondence
+            else:
+                if probs:
+                    ck.violation({**c, "got_files": got_files}, "; ".join(probs), None)
+                if dups:
+                    ck.violation({**c, "got_files": got_files}, "; ".join(dups), lambda cc: "C20-DUP" if ("C20-DUP" in live and dup_predicate(cc)) else None)
             if mout is not None and not res["raised"]:
-                for k, f in enumerate(mfiles):
-                    mfile = mout[li + k].split(" ")[0]
-                    if hexs(res["files"].get(f) or b"") != mfile:
-                        ck.disagree("Log model (one handler per enable_basic_logging call) vs logging API history", c,
-                                    f"file {f}: impl={hexs(res['files'].get(f) or b'')[-400:]} model={mfile[-400:]}")
-                    else:
-                        ck.traces_validated += 1
+                got = history_impl_reply(c, res)
+                if got != mout[li]:
+                    gf, mf = got.split(" ")[0].split(","), mout[li].split(" ")[0].split(",")
+                    bad = [a.split(":")[0] for a, b in zip(gf, mf) if a != b] if len(gf) == len(mf) else ["?"]
+                    ck.disagree("Log API model (runApi: handler list, levels, files) vs logging API history", c,
+                                f"differing files {[HFILES[int(x)] if x.isdigit() else x for x in bad]}; impl={got[-500:]} model={mout[li][-500:]}")
+                    if not c.get("illformed") and not probs and not dups:
+                        hist_dis.append(c)
+                else:
+                    ck.traces_validated += 1
+                    hist_files += got.split(" ")[0].count(":")
         elif kind == "e2e":
             cc = {"kind": "e2e", "buffered": c["buffered"], "caller": c["caller"], "append": c["mode"].lower() == "append", "old": c.get("old", ""),
                   "recs": res["recs"], "gen": c}
@@ -1336,6 +1474,8 @@ def _run(ck, tier, work):
     ck.extra["ill_formed_record_cases_checked_strictly"] = sum(1 for m_ in mal if m_["kind"] == "malformed")
     ck.extra["advisory_out_of_domain_disagreements_foreign_directives"] = adv_foreign
     ck.extra["advisory_disagreements_inside_open_finding_predicates"] = legacy_dis
+    ck.extra["history_files_compared_with_runApi"] = hist_files
+    ck.extra["history_cases_with_ill_formed_records_correspondence_only"] = ill_hist
     ck.exhaustive = True
     ck.extra["exhaustive_scope"] = (f"all record sequences of <= {nmax} records over a 6-kind alphabet (buffered; <= 3 unbuffered) + all 8 extras "
                                    f"subsets x 11 target lengths x caller_info ({nexh} cases); bytes repr on all 256 single bytes")
@@ -1363,10 +1503,12 @@ def replay(path):
             print("errors:", res["errors"], "raised:", res["raised"])
         elif kind == "history":
             res = run_history(c, work)
-            probs = judge_history(c, res)
+            probs, dups = judge_history(c, res)
+            probs = probs + dups
             for k, v in res["files"].items():
                 print(f"--- file {k}:\n" + (v.decode("utf-8", "replace") if v is not None else "(missing)"))
-            print("steps:", [(st["op"], st.get("file") or st.get("rec", {}).get("msg")) for st in c["steps"]], "end:", c["end"])
+            print("steps:", [(st["op"], st.get("file") or st.get("rec", {}).get("msg"), st.get("level") or st.get("rec", {}).get("level")) for st in c["steps"]], "end:", c["end"])
+            print("level in force at the start:", res["level0"], "refused calls:", res["refused"], "file handlers at the end:", res["nhandlers"])
         elif kind == "formatter":
             out = run_formatter(c)
             probs = [f"raised {o[1]}" for o in out if o[0] != "ok"]
